@@ -330,10 +330,9 @@ type Perturb struct {
 	Arg  int64  `json:"arg,omitempty"`
 }
 
-func (p *Perturb) is(kind string) bool { return p != nil && p.Kind == kind }
 
 // Handle answers one request.  The reply is either a KDC-REP or a KRB-ERROR.
-func (k *KDC) Handle(raw []byte, pt *Perturb) []byte {
+func (k *KDC) Handle(raw []byte, pt []Perturb) []byte {
 	l := k.log()
 	rec := &ReqRecord{At: k.Now().UTC(), Task: k.TaskID(), Realm: k.Realm, Raw: append([]byte{}, raw...)}
 	l.mu.Lock()
@@ -444,7 +443,7 @@ func (k *KDC) lifetimes(req *rk.KDCReq, now time.Time, renewLimit *time.Time) (s
 	return
 }
 
-func (k *KDC) handleAS(req *rk.KDCReq, rec *ReqRecord, l *taskLog, pt *Perturb) ([]byte, int32) {
+func (k *KDC) handleAS(req *rk.KDCReq, rec *ReqRecord, l *taskLog, pt []Perturb) ([]byte, int32) {
 	now := k.now()
 	if req.CName == nil || req.SName == nil {
 		return k.errReply(rk.ErrGeneric, req, nil, "cname and sname required"), rk.ErrGeneric
@@ -578,7 +577,7 @@ type issueArgs struct {
 	rec        *ReqRecord
 	l          *taskLog
 	r          *core.Rng
-	pt         *Perturb
+	pt         []Perturb
 	serial     string
 	cname      rk.PrincipalName
 	crealm     string
@@ -601,7 +600,6 @@ type issueArgs struct {
 
 // issue seals the ticket and the reply, logs the issue, and applies the perturbation if any.
 func (k *KDC) issue(a issueArgs) []byte {
-	pt := a.pt
 	etp := rk.EncTicketPart{Flags: a.flags, Key: a.sess, CRealm: a.crealm, CName: a.cname, TrType: 1, TrData: a.transited,
 		AuthTime: a.authtime, EndTime: a.end, RenewTill: a.renewTill, CAddr: a.caddr}
 	if !k.Policy.OmitStartTime {
@@ -629,7 +627,7 @@ func (k *KDC) issue(a issueArgs) []byte {
 	rep := rk.KDCRep{MsgType: a.msgType, PAData: a.padata, CRealm: a.crealm, CName: a.cname, Ticket: tkt}
 	replyKey, usage, encTag := a.replyKey, a.replyUsage, a.encTag
 	// ---- perturbations of the reply (C09).  The issue log records the honest issue.
-	if pt != nil {
+	for _, pt := range a.pt {
 		switch pt.Kind {
 		case "nonce":
 			ep.Nonce += pt.Arg
@@ -653,7 +651,8 @@ func (k *KDC) issue(a issueArgs) []byte {
 		case "caddr-dropped":
 			ep.CAddr = nil
 		case "authtime":
-			t := a.authtime.Add(time.Duration(pt.Arg))
+			// the KDC's idea of "now" is off by Arg: authtime (AS) resp. authtime and starttime (TGS)
+			t := a.start.Add(time.Duration(pt.Arg))
 			ep.AuthTime = t
 			if a.kind != "as" {
 				ep.StartTime = &t
@@ -673,7 +672,7 @@ func (k *KDC) issue(a issueArgs) []byte {
 	if err != nil {
 		return k.errReply(rk.ErrGeneric, a.req, nil, err.Error())
 	}
-	if pt != nil {
+	for _, pt := range a.pt {
 		switch pt.Kind {
 		case "enc-flip":
 			i := a.r.Intn(len(enc.Cipher))
@@ -689,7 +688,7 @@ func (k *KDC) issue(a issueArgs) []byte {
 	return rep.EncBytes()
 }
 
-func (k *KDC) handleTGS(req *rk.KDCReq, rec *ReqRecord, l *taskLog, pt *Perturb) ([]byte, int32) {
+func (k *KDC) handleTGS(req *rk.KDCReq, rec *ReqRecord, l *taskLog, pt []Perturb) ([]byte, int32) {
 	now := k.now()
 	bad := func(code int32, note string) ([]byte, int32) {
 		if note != "" {
